@@ -7,7 +7,7 @@
 // units/U71_parsing_reader.vu.  Include after shims/io.rs and shims/bytes.rs; do not combine with
 // shims/parsing_reader.rs or shims/secret_reader.rs (same trait name).
 // ---------------------------------------------------------------------------------
-//@trusted T4 BufReadParsing::{read_u8, read_be_u16, read_be_u32, read_arr::<C>, take_bytes, has_remaining}: Ok means the stream held enough bytes, the value is exactly the next 1/2/4/C/size bytes (big endian) and exactly those are consumed; take_bytes requests at most min(size, 1024) bytes of capacity up front; has_remaining consumes nothing; on Err nothing is known (proved in U71)
+//@trusted T4 BufReadParsing::{read_u8, read_be_u16, read_be_u32, read_arr::<C>, take_bytes, has_remaining}: Ok means the stream held enough bytes, the value is exactly the next 1/2/4/C/size bytes (big endian) and exactly those are consumed; take_bytes requests at most min(size, 1024) bytes of capacity up front; has_remaining consumes nothing; drain (for a stream shorter than 2^64 octets) consumes everything and returns the count; on Err nothing is known (proved in U71)
 //@trusted T4 BufReadParsing::read_tag::<C>(tag): Ok means the next C bytes equal tag and exactly those are consumed (read_arr + array comparison; not proved in U71)
 //@trusted T4 BufReadParsing::rest (= Read::read_to_end): Ok(b) returns all remaining bytes and leaves the stream empty (not proved in U71: std read_to_end)
 pub trait BufReadParsing: io::BufRead + Sized {
@@ -44,6 +44,11 @@ pub trait BufReadParsing: io::BufRead + Sized {
         ensures match r {
             Ok(_) => (*old(self)).rest().len() >= C && tag@ == (*old(self)).rest().subrange(0, C as int) && (*final(self)).rest() == (*old(self)).rest().skip(C as int),
             Err(e) => true };
+    fn drain(&mut self) -> (r: io::Result<u64>)
+        requires (*old(self)).rest().len() < u64::MAX
+        ensures match r {
+            Ok(n) => n == (*old(self)).rest().len() && (*final(self)).rest().len() == 0,
+            Err(e) => true };
 }
 impl<B: io::BufRead> BufReadParsing for B {
     #[verifier::external_body]
@@ -62,6 +67,8 @@ impl<B: io::BufRead> BufReadParsing for B {
     fn rest(&mut self) -> (r: io::Result<BytesMut>) { unimplemented!() }
     #[verifier::external_body]
     fn read_tag<const C: usize>(&mut self, tag: &[u8; C]) -> (r: io::Result<()>) { unimplemented!() }
+    #[verifier::external_body]
+    fn drain(&mut self) -> (r: io::Result<u64>) { unimplemented!() }
 }
 
 //@trusted T2 bytes::Bytes derefs to the byte slice of its content; no allocation exceeds isize::MAX bytes (std allocator rule), so Bytes::len(), Vec::len() and slice lengths are <= isize::MAX
